@@ -62,6 +62,12 @@ def run_job(prop, hname, params, tier, seed):
     res = {'harness': hname, 'params': params, 'error': None, 'violations': [], 'spurious': 0}
     tmo = h.timeout_ms or (20000 if tier == 'quick' else 120000)
     ex = Explorer(timeout_ms=tmo, max_paths=h.max_paths, seed=seed)
+    import signal
+
+    def _alarm(sig, frm):
+        raise BoundExceeded('job wall-time limit reached')
+    signal.signal(signal.SIGALRM, _alarm)
+    signal.alarm(int(os.environ.get('SYMX_JOB_LIMIT_S', '900' if tier == 'quick' else '5400')))
     try:
         uni = _mk_universe(h)
         nval = 0
@@ -75,11 +81,12 @@ def run_job(prop, hname, params, tier, seed):
         res['error'] = 'HarnessError: %s' % e
     except BaseException as e:  # noqa
         res['error'] = '%s: %s\n%s' % (type(e).__name__, e, traceback.format_exc()[-3000:])
+    signal.alarm(0)
     st = ex.stats
     res.update(paths=st.paths, aborted=st.aborted, forks=st.forks, q_unsat=st.q_unsat, q_sat=st.q_sat,
                q_unknown=st.q_unknown, solver_s=round(st.solver_s, 3), proved=st.proved, covers=st.covers,
                unknowns=st.unknowns[:20], n_unknown=len(st.unknowns), div_sites=st.div_sites, assumes=st.assumes,
-               samples=st.samples, label_s={k: round(v, 2) for k, v in st.label_s.items()})
+               samples=st.samples, assumed_feasible=st.assumed_feasible, label_s={k: round(v, 2) for k, v in st.label_s.items()})
     try:
         res['files'] = list(uni.loaded_files)
     except Exception:
